@@ -107,8 +107,10 @@ def build_script(ctx, rng):
     sreqs = store_requests(U6)
     share = 1.0 if thorough else 0.05
     for store, via in cfgs:
+        # the wrapper over a store with native prefix listing only passes the call on: a quarter
+        w = 0.25 if (via == "wrapper" and store != "mem") else 1.0
         for names in allsets:
-            picked = [r for r in sreqs if rng.random() < share]
+            picked = [r for r in sreqs if rng.random() < share * w]
             for ch in chunks(picked, 36):
                 base = "/buckets/bk%d" % rng.randrange(2) if (store == "leveldb3" and rng.random() < 0.4) else "/t"
                 ex = [reset(store, via, names, deep=rng.random() < 0.3, base=base)]
@@ -220,8 +222,10 @@ def run(ctx):
 
     consts = {"Universe": set(), "Starts": set(), "Limits": set(), "PrefixSet": set(), "PatternSet": set(),
               "ExclSet": set(), "MaxOps": 0}
+    n_events = sum(1 for _ in open(trace))
     ctx.judge("ListingTrace", trace, "trace_base.cfg", consts,
-              nontrivial=lambda e: any('"res":[[' in x for x in e), mutate=mutate, chunk_events=12000)
+              nontrivial=lambda e: any('"res":[[' in x for x in e), mutate=mutate,
+              chunk_events=min(20000, max(2500, n_events // 8 + 1)))
     ctx.rule = ("executions = one directory (a subset of {a,ab,abc,b,ba,c}; all 64 subsets) in one configuration "
                 "(leveldb/leveldb2/leveldb3 direct, the same through FilerStoreWrapper, an in-memory store without "
                 "prefix listing through the wrapper, Filer over mem/leveldb/leveldb2/leveldb3) with up to 36 "
